@@ -14,8 +14,10 @@ import Cx.Basic
     iterations still possible (`n - i`); entry points instantiate it, so the `0` fuel case is the loop exit;
   * Go results `(-1, -1, false)` are `none`, `(s, e, true)` is `some (s, e)`;
   * Go `int` quantities that are never negative are `Nat`; `maxMatch` (which can be `-1`, from `{n,}`) is `Int`;
-  * questionable behaviour is kept: the searchers never look at the `NonGreedy` / `FoldCase` flags, `maxMatch = 0`
-    means "unbounded" even when it came from `{0}`, Latin-1 runes 0x80–0xFF are used as *bytes*, …
+  * questionable behaviour is kept: the SEARCHERS never look at the `NonGreedy` / `FoldCase` flags, `maxMatch = 0`
+    means "unbounded" even when it came from `{0}`, Latin-1 runes 0x80–0xFF are used as *bytes*, … — it is the
+    applicability predicates (`ExtractCharClassRanges`, `isValidCompositePart`, `DetectAnchoredLiteral`) that now keep
+    such patterns away from them (non-greedy, `{…,0}`, last class rune above U+007F, `FoldCase` literal);
   * `CompositeSearcher.matchLengths` (a write-only scratch slice) has no influence on any result and is not modelled.
 -/
 namespace Cx.Fast
@@ -168,6 +170,8 @@ end CharClassSearcher
 /-- `ExtractCharClassRanges` (nfa/charclass_extract.go). `none` = Go `nil`. -/
 def extractCharClassRanges (re : Re) : Option (List (Nat × Nat)) :=
   if re.op ≠ .plus then none else
+  -- `if re.Flags&syntax.NonGreedy != 0 { return nil }`
+  if re.nonGreedy then none else
   match re.sub with
   | [sub] =>
     if sub.op ≠ .charClass then none else
@@ -280,8 +284,31 @@ def extractCompositeParts (re : Re) : Option (List CharClassPart) :=
 def newCompositeSearcher (re : Re) : Option CompositeSearcher :=
   (extractCompositeParts re).map fun ps => { parts := ps }
 
+/-- `len(rune) > 0 && rune[len(rune)-1] > 0x7F`: the test both `isValidCompositePart` and `DetectAnchoredLiteral` use
+    for "the class has a member above U+007F" (the parser keeps `Rune` sorted, so the last rune is the greatest). -/
+def lastRuneAbove7F (rune : List Nat) : Bool :=
+  match rune.getLast? with
+  | some r => decide (r > 0x7F)
+  | none => false
+
+/-- `compositePartClass`: the class a composite part repeats (`none` = `nil`) -/
+def compositePartClass (re : Re) : Option Re :=
+  if re.op = .charClass then some re else
+  match re.sub with
+  | [x] => if x.op = .charClass then some x else none
+  | _ => none
+
+/-- `cc := compositePartClass(re); cc != nil && len(cc.Rune) > 0 && cc.Rune[len(cc.Rune)-1] > 0x7F` -/
+def compositePartNonAscii (re : Re) : Bool :=
+  match compositePartClass re with
+  | some cc => lastRuneAbove7F cc.rune
+  | none => false
+
 /-- `isValidCompositePart` -/
 def isValidCompositePart (re : Re) : Bool :=
+  if re.nonGreedy then false else
+  if re.op = .repeat_ ∧ re.max = 0 then false else
+  if compositePartNonAscii re then false else
   match re.op with
   | .plus | .star | .quest | .repeat_ =>
     match re.sub with
@@ -303,6 +330,8 @@ structure AnchoredLiteralInfo where
   charClassTable : Option Table
   charClassMin : Nat
   wildcardMin : Nat
+  /-- `WildcardMatchesNewline`: the wildcard is `(?s:.)` -/
+  wildcardMatchesNewline : Bool
   minLength : Nat
   deriving Repr
 
@@ -317,6 +346,12 @@ def isGreedyWildcard (re : Re) : Bool :=
 
 def getWildcardMin (re : Re) : Nat := if re.op = .plus then 1 else 0
 
+/-- `sub.Sub[0].Op == syntax.OpAnyChar` (only evaluated after `isGreedyWildcard(sub)`, so `Sub[0]` exists) -/
+def wildcardIsDotNL (re : Re) : Bool :=
+  match re.sub with
+  | x :: _ => decide (x.op = .anyChar)
+  | [] => false
+
 def isCharClassPlus (re : Re) : Bool :=
   if re.op ≠ .plus then false else
   match re.sub with
@@ -330,10 +365,11 @@ def encodeRune (r : Nat) : List Nat :=
   else if r < 0x10000 then [0xE0 ||| (r >>> 12), 0x80 ||| ((r >>> 6) &&& 0x3F), 0x80 ||| (r &&& 0x3F)]
   else [(0xF0 ||| (r >>> 18)) % 256, 0x80 ||| ((r >>> 12) &&& 0x3F), 0x80 ||| ((r >>> 6) &&& 0x3F), 0x80 ||| (r &&& 0x3F)]
 
-/-- `extractLiteral`: runes `> 255` are UTF-8 encoded, runes `≤ 255` are emitted as ONE byte (sic). -/
+/-- `extractLiteral`: `nil` for a `FoldCase` literal; runes `> 0x7F` are UTF-8 encoded. -/
 def extractLiteral (re : Re) : Option Bytes :=
   if re.op ≠ .literal then none else
-  some (re.rune.flatMap fun r => if r > 255 then encodeRune r else [r]).toArray
+  if re.foldCase then none else
+  some (re.rune.flatMap fun r => if r > 0x7F then encodeRune r else [r]).toArray
 
 /-- `buildCharClassTable` -/
 def buildCharClassTable (re : Re) : Option Table :=
@@ -344,6 +380,7 @@ structure DetectState where
   pfx : Bytes := #[]
   wildcardSeen : Bool := false
   wildcardMin : Nat := 0
+  wildcardNL : Bool := false
   table : Option Table := none
   charClassMin : Nat := 0
 
@@ -353,7 +390,8 @@ def detectLoop : List Re → DetectState → Option DetectState
   | sub :: rest, st =>
     if isGreedyWildcard sub then
       if st.wildcardSeen then none
-      else detectLoop rest { st with wildcardSeen := true, wildcardMin := getWildcardMin sub }
+      else detectLoop rest { st with wildcardSeen := true, wildcardMin := getWildcardMin sub,
+                                     wildcardNL := wildcardIsDotNL sub }
     else if !st.wildcardSeen then
       match extractLiteral sub with
       | none => none
@@ -361,7 +399,10 @@ def detectLoop : List Re → DetectState → Option DetectState
     else
       if isCharClassPlus sub && rest.isEmpty then
         match sub.sub with
-        | [cc] => detectLoop rest { st with table := buildCharClassTable cc, charClassMin := 1 }
+        | [cc] =>
+          -- `if cc := sub.Sub[0].Rune; len(cc) > 0 && cc[len(cc)-1] > 0x7F { return nil }`
+          if lastRuneAbove7F cc.rune then none
+          else detectLoop rest { st with table := buildCharClassTable cc, charClassMin := 1 }
         | _ => none
       else none
 
@@ -390,7 +431,7 @@ def detectAnchoredLiteral (re : Re) : Option AnchoredLiteralInfo :=
           | some st =>
             if !st.wildcardSeen then none else
             some { pfx := st.pfx, sfx := sfx, charClassTable := st.table, charClassMin := st.charClassMin,
-                   wildcardMin := st.wildcardMin,
+                   wildcardMin := st.wildcardMin, wildcardMatchesNewline := st.wildcardNL,
                    minLength := st.pfx.size + st.wildcardMin + st.charClassMin + sfx.size }
   | [] => none
 
@@ -405,6 +446,15 @@ def countBack (t : Table) (input : Bytes) : Nat → Nat → Nat
   | 0, _ => 0
   | k+1, i1 => if t.mem (input.at (i1 - 1)) then countBack t input k (i1 - 1) + 1 else 0
 
+/-- `bytes.IndexByte(input[lo:hi], c) < 0` (library call, stated over the index range; `lo ≤ hi ≤ len(input)` at both
+    call sites, see `matchAnchoredLiteral`) -/
+def noByteIn (c : Nat) (input : Bytes) (lo hi : Nat) : Bool :=
+  (List.range' lo (hi - lo)).all fun i => decide (input.at i ≠ c)
+
+/-- `info.wildcardOK(input[lo:hi])`: `info.WildcardMatchesNewline || bytes.IndexByte(span, '\n') < 0` -/
+def AnchoredLiteralInfo.wildcardOK (info : AnchoredLiteralInfo) (input : Bytes) (lo hi : Nat) : Bool :=
+  info.wildcardMatchesNewline || noByteIn 10 input lo hi
+
 /-- `MatchAnchoredLiteral`. (On an `info` whose `minLength` is smaller than `len(prefix)+len(suffix)` the Go code can
     index out of range; `DetectAnchoredLiteral` never produces such an `info`, see `AnchoredLiteralInfo.WF`.) -/
 def matchAnchoredLiteral (input : Bytes) (info : AnchoredLiteralInfo) : Bool :=
@@ -413,11 +463,11 @@ def matchAnchoredLiteral (input : Bytes) (info : AnchoredLiteralInfo) : Bool :=
   let suffixStart := input.size - info.sfx.size
   if !bytesAt input suffixStart info.sfx.toList then false else
   match info.charClassTable with
-  | none => decide (suffixStart - info.pfx.size ≥ info.wildcardMin)
+  | none => decide (suffixStart - info.pfx.size ≥ info.wildcardMin) && info.wildcardOK input info.pfx.size suffixStart
   | some t =>
     let charClassStart := info.pfx.size + info.wildcardMin
     let found := countBack t input (suffixStart - charClassStart) suffixStart
-    decide (found ≥ info.charClassMin)
+    decide (found ≥ info.charClassMin) && info.wildcardOK input info.pfx.size (suffixStart - found)
 
 /-- meta `findIndicesAnchoredLiteral` -/
 def anchoredFind (input : Bytes) (info : AnchoredLiteralInfo) : Option (Nat × Nat) :=
